@@ -124,6 +124,40 @@ def rule_origin(prog, t, p, func, rsyms):
     return None, None
 
 
+def _may_be_none(en, p, ev):
+    """Why the stored value may be None on this path, else None."""
+    v = en.expand(ev.value)
+    known = {U(en.expand(c.expr)) for c in p.conds[:ev.nconds]
+             if c.kind == 'test' and c.pol}
+    known |= {U(c.expr) for c in p.conds[:ev.nconds]
+              if c.kind == 'test' and c.pol}
+
+    def mn(x, depth=4):
+        if U(x) in known:
+            return None
+        if isinstance(x, ast.Constant):
+            return 'the constant None' if x.value is None else None
+        if isinstance(x, ast.Call):
+            mc = method_call(x, 'get')
+            if mc and len(x.args) == 1 and not x.keywords:
+                return '`%s` answers None for a missing key' % U(x)[:50]
+            if mc and len(x.args) == 2:
+                return mn(x.args[1], depth - 1)
+            return None
+        if isinstance(x, ast.IfExp):
+            return mn(x.body, depth - 1) or mn(x.orelse, depth - 1)
+        if isinstance(x, ast.BoolOp):
+            if isinstance(x.op, ast.Or):
+                return mn(x.values[-1], depth - 1)
+            return mn(x.values[-1], depth - 1) or \
+                '`%s` answers its falsy left operand' % U(x)[:50]
+        if isinstance(x, ast.Name) and depth > 0 and isinstance(
+                en.defs.get(x.id), ast.AST):
+            return mn(en.defs[x.id], depth - 1)
+        return None
+    return mn(v)
+
+
 def check_tool_paths(ctx, tool):
     """Verdict polarity, argument roles, iteration and target derivation,
     read off the paths of the tool with its helpers inlined."""
@@ -166,6 +200,9 @@ def check_tool_paths(ctx, tool):
                 attempts += 1
                 if e.kind == 'call':
                     evals.append((i, e, name, how))
+                    ctx.__dict__.setdefault('_c19_evals', set()).add(
+                        (e.frame or tool.qual, e.line,
+                         len(e.node.args) + len(e.node.keywords)))
         failed_prints = [e for e in p.events if e.kind == 'call'
                          and verdict_text(t, e.node) == 'failed']
         def mentions_rules(x, depth=3):
@@ -231,6 +268,28 @@ def check_tool_paths(ctx, tool):
                                             x.left, ':') for x in n.ifs):
                                 flt = True
                 colon_ok = flt if colon_ok is None else (colon_ok and flt)
+        # ---- derived credentials: a key is added only with a value
+        if evals:
+            cr0 = evals[0][1].node.args[1] if len(
+                evals[0][1].node.args) > 1 else None
+            for k in evals[0][1].node.keywords:
+                if k.arg == 'creds':
+                    cr0 = k.value
+            for ev in p.events[:evals[0][0]]:
+                if cr0 is None or ev.kind != 'store' or not isinstance(
+                        ev.node, ast.Subscript) or U(ev.node.value) != U(cr0):
+                    continue
+                why = _may_be_none(en, p, ev)
+                ob('C19.CREDS', why is None, ev.line,
+                   'derived credential %s = %s' % (
+                       U(ev.node), U(en.expand(ev.value))[:60]),
+                   'the key is added only together with a value' if why is
+                   None else
+                   'the credentials get the key %s even when the token has '
+                   'nothing to derive it from (%s): its value is then None, '
+                   'which GenericCheck turns into the text `None` - that '
+                   'matches a null target attribute, whereas credentials '
+                   'without the key deny' % (U(ev.node.slice), why))
         # ---- each evaluation: roles, polarity, target
         for i, e, name, how in evals:
             n_eval += 1
@@ -435,15 +494,22 @@ def check_duck(ctx):
     # attributes of `enforcer` read by the built-in checks
     needed = {}
     base = CHECKS + '.BaseCheck'
+    fns = {}
     for q in prog.subclasses(base):
         c = prog.classes[q]
         for m in c.methods.values():
-            prm = m.params
-            for n in ast.walk(m.node):
-                if isinstance(n, ast.Attribute) and isinstance(
-                        n.value, ast.Name) and n.value.id == 'enforcer' and \
-                        'enforcer' in prm:
-                    needed.setdefault(n.attr, []).append((m, n))
+            fns[m.qual] = m
+            # ... and the helpers the check hands the enforcer on to
+            for q2, g in prog.region(m).items():
+                if g.module.name.startswith(PKG) and 'enforcer' in g.params:
+                    fns.setdefault(q2, g)
+    for m in fns.values():
+        prm = m.params
+        for n in ast.walk(m.node):
+            if isinstance(n, ast.Attribute) and isinstance(
+                    n.value, ast.Name) and n.value.id == 'enforcer' and \
+                    'enforcer' in prm:
+                needed.setdefault(n.attr, []).append((m, n))
     ctx.floor('C19.DUCK', len(needed), 2, 'enforcer attributes read by '
               'built-in checks')
     for attr, sites in sorted(needed.items()):
@@ -495,6 +561,28 @@ def check_lookup(ctx, tool):
                 for c in caught)]
             denies = any(verdict_of(c) == 'failed' for h in hs
                          for c in ast.walk(h) if isinstance(c, ast.Call))
+            if not denies and hs:
+                # read off the paths: every path through a handler of this
+                # lookup prints exactly `failed`
+                t = tool_table(ctx, tool)
+                tries = set()
+                cur2, anc2 = n, pm.get(n)
+                while anc2 is not None:
+                    if isinstance(anc2, ast.Try):
+                        tries.add('try@%d' % anc2.lineno)
+                    cur2, anc2 = anc2, pm.get(anc2)
+                got = []
+                for p in t.paths:
+                    if not any(c.kind == 'exc' and isinstance(
+                            c.expr, ast.Constant) and str(
+                                c.expr.value).split(' ')[-1] in tries and (
+                                    c.frame in (None, tool.qual))
+                            for c in p.conds):
+                        continue
+                    got.append([verdict_text(t, e.node) for e in p.events
+                                if e.kind == 'call' and verdict_text(
+                                    t, e.node)])
+                denies = bool(got) and all(g == ['failed'] for g in got)
             ok = not missing and denies
             ctx.ob('C19.LOOKUP', ok, ctx.where(tool.module, n), tool.qual,
                    'lookup ' + U(n),
@@ -509,6 +597,55 @@ def check_lookup(ctx, tool):
         ctx.ob('C19.LOOKUP', True, ctx.where(tool.module, tool.node),
                tool.qual, 'no direct rule-store lookup', 'nothing to guard',
                nontrivial=False)
+
+
+def check_eval_guard(ctx, tool):
+    """An error while evaluating one policy is reported for that policy and
+    the listing goes on: the rule call of the evaluator is covered - there,
+    or around the evaluator's call in the tool - by a handler for Exception
+    that does not raise again.  Otherwise the first such policy ends the
+    run and every later policy gets no verdict."""
+    from .c14 import covering_handlers, catches
+    prog = ctx.prog
+    # the rule calls: the call events check_tool_paths recognised as the
+    # evaluation of a rule of the loaded set, located in their function
+    sites = []
+    for frame, line, nargs in sorted(getattr(ctx, '_c19_evals', ())):
+        fr = prog.functions.get(frame, tool)
+        for c in walk_no_nested(fr.node):
+            if isinstance(c, ast.Call) and c.lineno == line and len(
+                    c.args) + len(c.keywords) == nargs and not (
+                        isinstance(c.func, ast.Name) and c.func.id in (
+                            'print', 'str', 'bool')):
+                sites.append((fr, c))
+    n = 0
+    for ev, c in sites:
+        pm = parent_map(ev.node)
+        hs = covering_handlers(prog, ev, pm, c)
+        ok = any(catches(names, 'builtin:Exception') and not any(
+            isinstance(x, ast.Raise) for x in ast.walk(h))
+            for h, names in hs)
+        if not ok and ev is not tool:
+            # covered at every call of the evaluator?
+            csites = [x for x, g in prog.callees(tool)
+                      if g is ev and isinstance(x, ast.Call)]
+            pmt = parent_map(tool.node)
+            ok = bool(csites) and all(any(
+                catches(names, 'builtin:Exception') and not any(
+                    isinstance(y, ast.Raise) for y in ast.walk(h))
+                for h, names in covering_handlers(prog, tool, pmt, x))
+                for x in csites)
+        n += 1
+        caught = sorted({nm.split(':')[-1] for h, names in hs
+                         for nm in names})
+        ctx.ob('C19.EVERY', ok, ctx.where(ev.module, c), ev.qual,
+               'rule evaluation %s' % U(c)[:50],
+               'an evaluation error is reported for this policy and the '
+               'listing continues' if ok else
+               'an evaluation error other than %s leaves the tool: the '
+               'listing stops at that policy and every later policy gets no '
+               'verdict' % (caught or 'nothing'))
+    ctx.floor('C19.EVERY', n, 1, 'rule evaluation calls in the evaluator')
 
 
 def check(ctx):
@@ -527,6 +664,7 @@ def check(ctx):
     check_default(ctx, tool)
     check_duck(ctx)
     check_lookup(ctx, tool)
+    check_eval_guard(ctx, tool)
     # C19.STATELESS: a verdict depends on the files of this call only
     from ..modstate import state_uses
     region = {q: f for q, f in prog.region(tool).items()
